@@ -985,9 +985,16 @@ func ruleX2(c *Ctx) {
 					if !e.isError {
 						v := e.constant
 						if e.param >= 0 {
-							cv, isC := constInt(call.Call.Args[e.param])
+							cvs, isC := c.constIntsOf(call.Call.Args[e.param])
 							if !isC {
 								undec = "helper " + g.Name() + " is passed a non-constant token type"
+							}
+							var cv int64
+							for _, one := range cvs {
+								cv = one
+								if one == a.itemEOF {
+									break // a table holding the end token makes the helper a possible terminal emitter
+								}
 							}
 							v = cv
 						}
@@ -1271,9 +1278,15 @@ func ruleX4(c *Ctx) {
 			case *ssa.Call:
 				if isCallTo(&x.Call, "strings", "EqualFold") {
 					for _, arg := range x.Call.Args {
-						if k, ok := arg.(*ssa.Const); ok && k.Value != nil && k.Value.Kind() == constant.String && lettersOnly(constant.StringVal(k.Value)) {
-							nFold++
-							c.ok(fmt.Sprintf("%s matches keyword %q", funcName(fn), constant.StringVal(k.Value)), in.Pos(), "strings.EqualFold")
+						cands := []ssa.Value{arg}
+						if tv := c.tableFieldValues(arg); len(tv) > 0 {
+							cands = tv // a keyword table: every entry is matched by this one EqualFold
+						}
+						for _, cv := range cands {
+							if k, ok := cv.(*ssa.Const); ok && k.Value != nil && k.Value.Kind() == constant.String && lettersOnly(constant.StringVal(k.Value)) {
+								nFold++
+								c.ok(fmt.Sprintf("%s matches keyword %q", funcName(fn), constant.StringVal(k.Value)), in.Pos(), "strings.EqualFold")
+							}
 						}
 					}
 				}
@@ -1358,8 +1371,10 @@ func ruleX5(c *Ctx) {
 			if g == a.emit || (a.byName[g.Name()] == g) {
 				for i, arg := range call.Call.Args {
 					if i < len(g.Params) && types.Identical(g.Params[i].Type(), tt) {
-						if v, ok := constInt(arg); ok {
-							emittable[v] = true
+						if vs, ok := c.constIntsOf(arg); ok {
+							for _, v := range vs {
+								emittable[v] = true
+							}
 						}
 					}
 				}
